@@ -806,3 +806,48 @@ Proof.
     destruct W as [Wo Wr]. apply (IH U'); [eapply rstep_ok; eauto|exact Wr]. }
   destruct Hfin as [Uf Hf]. intros ws1 n1 a b r E Hin. unfold r_answers in Hin. eapply rinv_archive; eauto.
 Qed.
+
+(* ====================== Round 6: Reset onto a fresh DB with ANOTHER validator count; merged clocks ====================== *)
+(* after a Reset onto a new, empty database the reused object is exactly a new index for n' validators:
+   empty view (BranchesInfo = newInitialBranchesInfo n'), all three caches empty *)
+Theorem reset_fresh_is_init n' ce :
+  ce_view (ce_reset_fresh n' ce) = init n' /\ fc_items (ce_fc (ce_reset_fresh n' ce)) = [] /\
+  c_entries (ce_hbc (ce_reset_fresh n' ce)) = [] /\ c_entries (ce_lac (ce_reset_fresh n' ce)) = [] /\
+  ce_dirty (ce_reset_fresh n' ce) = false.
+Proof. repeat split. Qed.
+
+(* GetMergedHighestBefore through the HighestBefore cache *)
+Lemma merged_through_cache n ce vs a : prel n (ce_p ce) vs -> coh (ce_hb_t ce) ->
+  fst (ce_merged ce a) = merged (vs_cur vs) a.
+Proof.
+  intros R C. unfold ce_merged.
+  destruct (t_get_transparent a (ce_hb_t ce) C) as (Ha & _).
+  destruct (t_get a (ce_hb_t ce)) as [oa hbt]. cbn [fst snd] in *.
+  rewrite merged_as_merged_on, <- (pr_cur n _ _ R). unfold p_view at 1. cbn [hb].
+  rewrite alookup_dec_tbl. cbn [ce_hb_t t_cur] in Ha. rewrite <- Ha.
+  destruct oa as [ab|]; cbn [option_map]; [|reflexivity].
+  rewrite merged_on_shape, p_view_initbi. reflexivity.
+Qed.
+Theorem cinv_merged ws q n U ce out a ea : cinv ws q n U (ce, out) -> evt (ce_view ce) a ea ->
+  map proj (fst (ce_merged ce a)) = merged_spec n (evs (ce_view ce)) a.
+Proof.
+  intros (vs & R & _ & Chb & _) Ha. rewrite (merged_through_cache n ce vs a R Chb).
+  unfold ce_view in *. rewrite (pr_cur n _ _ R) in *. apply (merged_eq_spec n _ (pr_icur n _ _ R) a ea Ha).
+Qed.
+(* C06 for a reused object: after any reuse history (Resets onto the same or another DB, other validator counts
+   included) the merged clock read through the cache equals the specification for the CURRENT validator count *)
+Theorem reuse_history_merged ws n cap mw ms c0 U ops a ea : small mw -> Wlru.new mw ms = Some c0 ->
+  rops_ok U (r_init ws n cap c0) ops ->
+  let st := fold_left rstep (map fst ops) (r_init ws n cap c0) in
+  evt (ce_view (r_ce st)) a ea ->
+  map proj (fst (ce_merged (r_ce st) a)) = merged_spec (r_n st) (evs (ce_view (r_ce st))) a.
+Proof.
+  intros Hmw Hnew W.
+  assert (H0 : rinv U (r_init ws n cap c0)).
+  { split; [apply (cinv_new ws (quorum_of ws) n U cap mw ms c0 Hmw Hnew)|intros ? ? ? ? ? ? []]. }
+  assert (Hfin : exists Uf, rinv Uf (fold_left rstep (map fst ops) (r_init ws n cap c0))).
+  { revert H0 W. generalize (r_init ws n cap c0). revert U.
+    induction ops as [|[o U'] ops IH]; intros U st H0 W; cbn [map fold_left fst]; [exists U; exact H0|].
+    destruct W as [Wo Wr]. apply (IH U'); [eapply rstep_ok; eauto|exact Wr]. }
+  destruct Hfin as [Uf [Hc _]]. cbn zeta. intros Ha. eapply cinv_merged; eauto.
+Qed.
